@@ -18,6 +18,7 @@ for d in sorted(glob.glob(V+'/seeded/*')):
     prop=meta['property']
     det=[{'rule':k.split('/')[0],'expect_key':k,'status':status[k]} for k in keys]
     # keep only detections by rules that serve the seeded property first; others are listed separately
+    det.sort(key=lambda x: (x['status']!='violation'))
     own=[x for x in det if prop in rules.get(x['rule'],[])]
     other=[x for x in det if prop not in rules.get(x['rule'],[])]
     meta['detect']=own[:3]
